@@ -561,7 +561,7 @@ def main():
         # prefix: a fixed tree with several leaves, then every history of length `n` over 3 keys
         for cap in (4, 5, 6):
             base = [f"P set {k} {k}" for k in range(0, 2 * cap + 2)]
-            for hist in gen_exhaustive(cap, 3, min(n, 4)):
+            for hist in gen_exhaustive(cap, 3, min(n, 5)):
                 caseno += 1
                 ex.run_line(f"case {caseno}"); ex.run_line("flavour int"); ex.run_line(f"P new {cap}")
                 for l in base: ex.run_line(l)
